@@ -1,11 +1,49 @@
+# executed by mkmanifest.py; fills CLAIMS (property -> claim) and NA (property -> reason)
+_T = "static analysis: clang type-checked AST + Python ast + kernel-specification definitions; "
+_NOTE = ("Trusted: clang 14 front end and JSON dump, Python ast, the normal form of rule A, the tabled exceptions under tables/ (each with a reason). "
+         "Decides the named structural clauses only (each a necessary condition: breaking it breaks the behaviour); the behavioural remainder is listed under "
+         "declined_clauses in the evidence file and in DESIGN.md section 3. /repo's C++ cannot be built or run in this sandbox, so nothing is executed.")
+
 CLAIMS["C13"] = dict(
     category="translation_validation",
     text=("For each of the 168 kernels that have a Python definition, the clang-resolved C++ body (template pattern; in thorough mode also every "
           "instantiation) and the definition are lowered to one normal form and must be identical; every one of the 690 specialisations must forward "
-          "its parameters positionally to that one template and must have exactly the parameter names/types the specification lists. This decides "
-          "'kernel computes what the definition computes' up to C integer-width effects, for all inputs, which sampling tests cannot."),
+          "its parameters positionally to that one template and have exactly the parameter names/types the specification lists; every kernel::K dispatch "
+          "specialisation must forward positionally to the awkward_* symbol of the same kernel. This decides 'kernel computes what the definition computes' "
+          "up to C integer-width effects, for all inputs, which sampling tests cannot."),
     note=("Trusted: clang 14 front end; the normal form (casts, ++ forms, for/while, commutative operand order, a>b vs b<a, dead dummy initialisers, names). "
-          "Not decided: overflow/wrap-around per width; the 30 kernels without a definition (wrapper/signature rules only); extents (see C12)."),
-    technique="translation validation by normal-form comparison of clang AST vs Python ast; wrapper/signature agreement over all specialisations",
+          "Not decided: overflow/wrap-around per width; the 30 kernels without a definition (wrapper/signature/dispatch rules only); extents (see C12)."),
+    technique="translation validation by normal-form comparison of clang AST vs Python ast; wrapper/signature/dispatch agreement over all specialisations",
     design_ref="DESIGN.md 2.A, 2.B, 3 (C13)",
+)
+
+_FAM = {
+ "C01": ("slicing", "the ~55 getitem/carry/regularize/jagged/missing kernels equal their Python definitions (A) and all their width specialisations share one template (B); at every kernel call in the getitem/carry method family the Error is handled before anything else (D), role stems of parameter and argument agree (starts/stops/offsets/index/carry/advanced: ROLE), and out-parameters are bound to buffers created in the calling function (FRESH)"),
+ "C02": ("layout independence", "every dynamic_cast dispatch on an operand names every index width of each family it mentions (FAMILY) and the width branches are clones up to width tokens (CLONE); all kernel specialisations share one template and kernel::K dispatch forwards positionally to the same-named symbol (B); the normalisation kernels (compact_offsets, broadcast_tooffsets, nextcarry, BitMasked/ByteMasked conversions, contiguous) equal their definitions (A); call-site rules D/ROLE/FRESH on the re-encoding methods"),
+ "C03": ("reducers", "the reduce kernels with definitions equal them (A) and all dtype specialisations share one template (B); negaxis is passed on unchanged except negaxis-1 on the non-local branch of the list-offset node (AXIS.negaxis); D/ROLE/FRESH at the 165 kernel calls of the reduce family, incl. the 7-kernel non-local pipeline"),
+ "C04": ("ufunc broadcasting", "the three broadcast_tooffsets kernels (whose failure() is the 'cannot broadcast nested list' error) equal their definitions and are called with handled errors, agreeing roles and fresh outputs"),
+ "C05": ("flatten/num/local_index", "the axis/depth recursion discipline of num/offsets_and_flattened/localindex in all 14 node classes (list content gets depth+1, re-encodings and non-list nodes depth; AXIS), the 14 num/flatten/localindex kernels equal their definitions (A/B), D/ROLE/FRESH at their call sites"),
+ "C06": ("sort/argsort", "negaxis discipline of sort_next/argsort_next (AXIS.negaxis), the sort-adjacent kernels that have definitions equal them and all 89 sort specialisations forward to one template per kernel (A/B), D/ROLE/FRESH at the 59 call sites"),
+ "C07": ("combinations", "axis/depth discipline of combinations in all node classes (AXIS), awkward_combinations and ListArray_combinations_length equal their definitions (A/B), D/ROLE/FRESH at the call sites"),
+ "C08": ("concatenate/merge/simplify", "the fill/simplify/filltags/fillindex kernels equal their definitions and their 206 dtype specialisations share one template per kernel (A/B), D/ROLE/FRESH at the 152 kernel calls of mergemany/simplify/numbers_to_type"),
+ "C09": ("missing values", "axis/depth discipline of rpad/rpad_and_clip (AXIS), the 24 rpad/mask/numnull/BitMasked-conversion kernels equal their definitions (A/B), D/ROLE/FRESH at their call sites"),
+ "C11": ("validity", "the three validity kernels equal their Python definitions (A/B) and are called with their error inspected (validityerror idiom) and role-agreeing arguments"),
+}
+for _p, (_n, _what) in _FAM.items():
+    CLAIMS[_p] = dict(
+        category="other",
+        text=("Structural clauses of %s decided exactly, over every path/width/specialisation rather than over sampled inputs: %s. "
+              "Each obligation is one rule instance on one construct; a violation names file:line and the construct." % (_n, _what)),
+        note=_NOTE,
+        technique=_T + "rule families A KSPEC, B KSIB, D ERRFLOW, ROLE, FRESH" + (", F AXIS" if _p in ("C03", "C05", "C06", "C07", "C09") else "") + (", E FAMILY/CLONE" if _p == "C02" else ""),
+    )
+
+CLAIMS["C12"] = dict(
+    category="other",
+    text=("Whole-tree safety/purity clauses: at all 538 kernel call sites the Error is handled before any use/exit/next kernel (or the kernel provably cannot fail); "
+          "all 631 out-parameter arguments designate storage created in the calling function (scope-aware reaching definitions; fresh-returner summaries); "
+          "1016 role-stem pairs agree; 707 dispatch specialisations forward positionally; every failure() inside a kernel is returned; all 22 extern \"C\" "
+          "ArrayBuilder entry points are try/catch(...) wrapped; const_cast count is zero (with a positive control); raw new/delete only in tabled owner files."),
+    note=_NOTE,
+    technique=_T + "whole-program call-site rules D ERRFLOW, I FRESH, ROLE, B.2 dispatch, who-may-call for raw memory",
 )
